@@ -233,6 +233,12 @@ func (x *crashExec) cutVectors(inst *kvh.Instant) []map[string]int64 {
 			cand[prim.Logical-b] = true
 		}
 	}
+	// every block boundary inside the tail: a multi-block record cut exactly between two of its chunks
+	must := map[int64]bool{}
+	for b := (prim.Synced/kvh.BlockSize + 1) * kvh.BlockSize; b < prim.Logical; b += kvh.BlockSize {
+		cand[b] = true
+		must[b] = true
+	}
 	var cs []int64
 	for c := range cand {
 		if c >= prim.Synced && c <= prim.Logical {
@@ -248,7 +254,16 @@ func (x *crashExec) cutVectors(inst *kvh.Instant) []map[string]int64 {
 			keep = append(keep, cs[int(float64(i)*step+float64(inst.Event.Seq%3)*0.3)%len(cs)])
 		}
 		keep = append(keep, cs[len(cs)-1])
-		cs = keep
+		for b := range must {
+			keep = append(keep, b)
+		}
+		sort.Slice(keep, func(i, j int) bool { return keep[i] < keep[j] })
+		cs = keep[:0]
+		for i, c := range keep {
+			if i == 0 || c != keep[i-1] {
+				cs = append(cs, c)
+			}
+		}
 	}
 	var out []map[string]int64
 	// the other unsynced files (e.g. a hint file, a rewritten file of a merge) get a few interior cuts of their own,
@@ -374,7 +389,13 @@ func (x *crashExec) verify(inst *kvh.Instant, upper int) {
 		// continuation: the recovered database accepts a write, and the next restart shows the
 		// recovered mapping plus that write (an interrupted tail must not poison later appends)
 		continued := false
-		if (inst.Event.Seq+vi)%3 == 1 || x.c.Only != nil || (inst.InFlight && inst.OpKind == "batch" && (inst.Event.Seq+vi)%2 == 0) {
+		atBlock := false
+		for _, c := range v.cuts {
+			if c > 0 && c%kvh.BlockSize == 0 {
+				atBlock = true
+			}
+		}
+		if atBlock || (inst.Event.Seq+vi)%3 == 1 || x.c.Only != nil || (inst.InFlight && inst.OpKind == "batch" && (inst.Event.Seq+vi)%2 == 0) {
 			continued = true
 			cv := kvh.GenValue(uint64(inst.Event.Seq)+900, 9)
 			if err := db.Put([]byte("~continuation"), cv); err != nil {
